@@ -217,7 +217,9 @@ def nontrivial(case):
 # ---------------------------------------------------------------------- the check
 def run(ctx):
     quick = ctx.tier == "quick"
-    n_cases = 1000 if quick else 30000
+    n_cases = 800 if quick else 20000
+    if os.environ.get("VERIF_C06_CASES"):      # development aid (mutation self-tests)
+        n_cases = int(os.environ["VERIF_C06_CASES"])
     ctx.rule = ("histories of <= ~20 calls over 1-3 initial meshes (from_arrays over float/int caller arrays incl. two meshes "
                 "over one array, ring open/closed, 12 other procedural generators, later: save+load in 6 formats, loop / 3-quad "
                 "subdivision, surface / volume boundary extraction), then copy / merge (35% with one mesh twice) / translate / "
@@ -235,6 +237,7 @@ def run(ctx):
     ok_gen = ctx.regen(sys.modules[__name__])
     b = ctx.build_props(extra_targets=["theories/C06/Run.vo"])
     ctx.hygiene(["Lib", "C06"])
+    ctx.log("model regenerated (%s), proofs built (%s)" % (ok_gen, b["props_ok"]))
 
     corpus = []
     cdir = os.path.join(core.ROOT, "corpus", "C06")
@@ -244,6 +247,7 @@ def run(ctx):
                 corpus.append(json.load(open(os.path.join(cdir, f))))
     cases = [{"ops": c["ops"], "inv": c.get("inv", [])} for c in corpus] + [G.gen_case(ctx.rng) for _ in range(n_cases)]
     obs = run_impl_cases(ctx, cases)
+    ctx.log("implementation ran on %d histories" % len(cases))
 
     # 1. oracle on every case
     fails = []
@@ -268,6 +272,7 @@ def run(ctx):
     ctx.obligation("oracle: value semantics restated on every observation of the implementation (snapshots of all live objects)",
                    "oracle-on-implementation", True, "%d failing steps" % len(fails))
 
+    ctx.log("oracle done: %d failing steps" % len(fails))
     # 2. kernel-checked correspondence
     bad = []
     if b["model_ok"]:
